@@ -102,6 +102,16 @@ def cases(tier, seed, args):
         for i in range(n):
             sc = scenario(rng, ml.KINDS[i % 7], tier)
             out.append(dict(t='model', **sc))
+    if prop == 'inlinepa':
+        for (K, T) in ([(2, 1), (2, 2)] if q else [(2, 1), (2, 2), (3, 1)]):
+            n = 0
+            for ms in itertools.product(range(3), repeat=K * T):
+                for me in itertools.product(range(3), repeat=K * T):
+                    n += 1
+                    if (K, T) != (2, 1) and n % (9 if q else 2):
+                        continue
+                    out.append(dict(t='inlinepa', K=K, T=T, ms=list(ms), me=list(me), w=[1 + (n + k) % 3 for k in range(K)],
+                                    F=1 + n % 2))
     if prop == 'C09':
         n = 70 if q else 700
         for i in range(n):
@@ -303,6 +313,17 @@ def run_case(case):
         return model_case(case)[0]
     if t == 'domain':
         return domain_case(case)
+    if t == 'inlinepa':
+        K, T, F = case['K'], case['T'], case['F']
+        ms = np.array(case['ms']).reshape(K, T)
+        me = np.array(case['me']).reshape(K, T)
+        w = np.array(case['w'], float)
+        sp = np.log(2.0) * np.broadcast_to(ms, (F, K, T)).astype(float)
+        se = np.log(2.0) * np.broadcast_to(me, (F, K, T)).astype(float)
+        out, exc = call(mmu.log_pdf_to_affiliation_for_integration_models_with_inline_pa, (w / w.sum())[None, :, None], sp, se)
+        return [dict(kind='inlinepa', ms=ms.tolist(), me=me.tolist(), w=[int(x) for x in case['w']], exc=exc,
+                     out=[] if out is None else enc.arat(out[F - 1]), fp='fn=inline_pa_integration;lattice',
+                     key=f'ipa:{case["ms"]}:{case["me"]}:{case["w"]}')]
     raise ValueError(t)
 
 
